@@ -146,7 +146,7 @@ def rand_value(rng):
     if k == "list":
         return {"k": "list", "t": rng.choice(["list", "tuple"]), "c": [{"k": "text", "s": "x"}, {"k": "none"}, {"k": "num", "v": 1}]}
     if k == "bad":
-        return {"k": "bad", "t": rng.choice(["object", "dict", "bytes", "set"])}
+        return {"k": "bad", "t": rng.choice(["object", "dict", "bytes", "set", "function", "type", "tagfunction", "boundmethod", "strclass", "fraction", "module", "generator"])}
     if k == "badlist":
         # valid items followed by an invalid one: nothing may be appended
         return {"k": "list", "t": rng.choice(["list", "tuple"]), "c": [{"k": "text", "s": "v1"}, gen.TAG("i", ws=False), {"k": "bad", "t": "object"}, {"k": "text", "s": "v2"}]}
